@@ -916,7 +916,7 @@ def null_model_dir_sign(W, bin_swaps=5, wei_freq=.1, seed=None):
     An = (W < 0)  # negative adjmat
 
     if np.size(np.where(Ap.flat)) < (n * (n - 1)):
-        W_r, _ = randmio_und_signed(W, bin_swaps, seed=rng)
+        W_r, _ = randmio_dir_signed(W, bin_swaps, seed=rng)
         Ap_r = W_r > 0
         An_r = W_r < 0
     else:
